@@ -424,6 +424,9 @@ def layoutMultX (c : MCfg) (p : XP) (cx : XCtx) (t : List Byte) : XArg â†’ XSt â
     | some s => .ok (s.withFill (incCodeFillBy cx.k s.fill (fillIncPerElem cx)))
   | .rep _ _, _ => .err
   | a, st =>
+    -- "the Put.../Replicate functions only exist for 8- and 16-bit granular segments" (repair 3178fe5: error 1995)
+    if !hasPut cx then .err
+    else
     match setDSX st .const with
     | none => .err
     | some s => layoutLeafX c p cx t s a
